@@ -71,6 +71,11 @@ def run(chk):
                 'speriodogram(detrend=False)': lambda n: sp.speriodogram(x.copy(), NFFT=n, detrend=False, scale_by_freq=False),
                 'CORRELOGRAMPSD()': lambda n: sp.CORRELOGRAMPSD(x.copy(), lag=10, NFFT=n),
                 'minvar()': lambda n: sp.minvar(x.copy(), 4, NFFT=n)[0],
+                # ... the same after an estimate of larger dimension was computed at the coarse NFFT only (a result must not
+                # depend on what was computed before)
+                'minvar() after a larger order': lambda n: (sp.minvar(x.copy(), 7, NFFT=n) if n == nfft else None, sp.minvar(x.copy(), 4, NFFT=n)[0])[1],
+                # the smallest admissible NFFT of the correlogram
+                'CORRELOGRAMPSD(NFFT=2lag+1)': lambda n: sp.CORRELOGRAMPSD(x.copy(), lag=(nfft - 1) // 2 if nfft % 2 else 10, NFFT=n),
                 'music()': lambda n: eigen(x.copy(), 8, NSIG=2, method='music', NFFT=n)[0],
                 'ev()': lambda n: eigen(x.copy(), 8, NSIG=2, method='ev', NFFT=n)[0],
                 'arma2psd()': lambda n: sp.arma2psd(A=[0.5, -0.2], B=[0.3], rho=2.0, NFFT=n),
